@@ -1063,6 +1063,14 @@ N('davidson-extension-full-pivoting', 'C15',
 N('davidson-correction-count-from-ritz-values', 'C15',
   [('DavidsonSymEigsSolver.h', "Index(residues.cols()));", "Index(eigvals.size()));")], 'same count from the other array')
 
+# ----------------------------------------------------------------------------- F40
+M('lanczos-noise-test-against-the-current-step', 'C13,C07', 'noise-test-relative-to-the-whole-operator',
+  [('LinAlg/Lanczos.h', "if (m_beta < beta_thresh * hscale)", "if (m_beta < beta_thresh * (abs(m_fac_H(i, i - 1)) + abs(m_fac_H(i, i))))")], 'reverts fix F40')
+M('lanczos-noise-scale-not-accumulated', 'C13', 'noise-test-relative-to-the-whole-operator',
+  [('LinAlg/Lanczos.h', "hscale = (std::max)(hscale, (std::max)(abs(m_fac_H(i, i - 1)), abs(m_fac_H(i, i))));", "hscale = (std::max)(abs(m_fac_H(i, i - 1)), abs(m_fac_H(i, i)));")], 'the scale is overwritten in every step: local again')
+N('lanczos-noise-scale-from-a-block-of-H', 'C13,C07',
+  [('LinAlg/Lanczos.h', "if (m_beta < beta_thresh * hscale)", "if (m_beta < beta_thresh * m_fac_H.topLeftCorner(i + 1, i + 1).cwiseAbs().maxCoeff())")], 'the same reference recomputed from the block of H')
+
 # ----------------------------------------------------------------------------- F38 / F39 (LOBPCG; the file has CRLF line ends)
 M('lobpcg-gram-factor-default-ordering', 'C17', 'sparse-factors-used-with-their-ordering',
   [('contrib/LOBPCGSolver.h', "Eigen::SimplicialLDLT<SparseMatrix, Eigen::Lower, Eigen::NaturalOrdering<int>> chol_MBM(", "Eigen::SimplicialLDLT<SparseMatrix> chol_MBM(")], 'reverts fix F38')
